@@ -269,6 +269,20 @@ def ptype_keyword_lemmas():
                         continue
                     got = key(ctx, ctx.world.interp.getattr(ctx, obj, 'ptype'))
                     ctx.oblige('C08::ptype_keyword_honoured[%s(ptype=%s as %s)]' % (cname, p, how), got == p, info={'observed': got})
+        def native_replay(obname, model):
+            ctor = {'Plane': 'lentil.Plane(ptype=P)', 'Tilt': 'lentil.Tilt(x=1e-6, y=2e-6, ptype=P)',
+                    'DispersiveTilt': 'lentil.DispersiveTilt(trace=[1.0, 0.0], dispersion=[1.0, 5e-7], ptype=P)',
+                    'Grism': 'lentil.Grism(trace=[1.0, 0.0], dispersion=[1.0, 5e-7], ptype=P)'}[cname]
+            return '\n'.join(['import json, warnings', 'warnings.simplefilter("ignore")', 'import lentil', 'bad = []',
+                              'for name in %r:' % (list(PTYPES),),
+                              '    for P in (name, lentil.ptype(name)):',
+                              '        try:',
+                              '            got = str(%s.ptype)' % ctor,
+                              '        except Exception as e:',
+                              '            got = "raises " + type(e).__name__',
+                              '        if got != name: bad.append({"requested": name, "observed": got})',
+                              'print(json.dumps({"violated": bool(bad), "failing_cases": bad[:4]}))'])
+        lemma.native_replay = native_replay
         return ('C08::ptype keyword of %s' % cname, lemma)
     for cname in ctors:
         out.append(make(cname))
@@ -306,6 +320,17 @@ def propagator_lemmas():
                 return
             got = key(ctx, ctx.world.interp.getattr(ctx, res, 'ptype'))
             ctx.oblige('C08::%s' % label, want is not None and got == want, info={'expected': want, 'observed': got})
+        def native_replay(obname, model):
+            want = {'pupil': 'image', 'image': 'pupil', 'none': 'raises TypeError'}[wtype]
+            return '\n'.join(['import json, warnings', 'warnings.simplefilter("ignore")', 'import numpy as np, lentil',
+                              'w = lentil.Wavefront(600e-9) * lentil.Pupil(amplitude=lentil.circle((32, 32), 10), focal_length=10.0, pixelscale=1e-3)',
+                              "w.ptype = lentil.ptype('%s')" % wtype,
+                              'try:',
+                              '    obs = str(lentil.%s(w, pixelscale=5e-6, shape=8, oversample=1).ptype)' % fn,
+                              'except Exception as e:',
+                              '    obs = "raises " + type(e).__name__',
+                              'print(json.dumps({"violated": obs != %r, "observed": obs, "expected": %r}))' % (want, want)])
+        lemma.native_replay = native_replay
         return ('C08::' + '%s flips %s' % (fn, wtype), lemma)
     for fn in ('propagate_dft', 'propagate_fft'):
         for wtype in WTYPES:
